@@ -19,7 +19,7 @@ from fractions import Fraction as F
 import numpy as np
 
 import common
-from props.c10 import theta_space, real_coefs, OracleSpline, fr
+from props.c10 import theta_space, real_coefs, OracleSpline, fr, Guard
 
 LEVEL = 'proof'
 FACTOR = 64.0
@@ -115,15 +115,8 @@ def reference(case, B, ri, phi):
 
 
 def run_case(chk, drv, case, stats):
-    try:
+    with Guard(chk, 'C13:raises', 'constructing ParallelGradient or calling parallel_gradient', case):
         return _run_case(chk, drv, case, stats)
-    except (IndexError, ValueError, AssertionError, ZeroDivisionError, FloatingPointError, TypeError, AttributeError) as e:
-        import traceback
-        tb = traceback.extract_tb(e.__traceback__)
-        if not any('pygyro' in fr_.filename for fr_ in tb):
-            raise
-        chk.fail('C13:raises', 'constructing ParallelGradient or calling parallel_gradient raised %s: %s' % (type(e).__name__, str(e)[:120]),
-                 case, expected='a result', actual=['%s:%d' % (fr_.filename.split('/')[-1], fr_.lineno) for fr_ in tb[-3:]])
 
 
 def _run_case(chk, drv, case, stats):
@@ -135,6 +128,9 @@ def _run_case(chk, drv, case, stats):
     phi = rng.uniform(-1, 1, size=(nz, nq)) * rng.choice([1.0, 1e3, 1e-3])
     der = np.full((nz, nq), np.nan)
     out = pg.parallel_gradient(phi, ri, der)
+    if not np.isfinite(der).all():
+        chk.fail('C13:nonfinite', 'parallel_gradient produced nan/inf from finite data', tag)
+        return
     if out is not der and not np.array_equal(out, der):
         chk.fail('C13:return', 'parallel_gradient does not return/fill the array passed as der', tag)
 
@@ -273,13 +269,17 @@ def fieldline_constants(chk):
         z = dz * np.arange(nz)
         r = np.array([0.5, 3.0])
         lay = Layout('v_parallel_2d', [1], [0, 2, 1], [r, theta, z], [0])
-        pg = ParallelGradient(bs, [r, theta, z], lay, C, order=order)
+        case = {'order': order, 'deg': deg, 'uniform': uniform, 'nq': nq, 'nz': nz, 'k': k, 'iota': C.iotaVal, 'dz': float(dz)}
         G = nprng.uniform(-1, 1, size=nq)
         phi = np.array([[G[(q - k * a) % nq] for q in range(nq)] for a in range(nz)])
         der = np.empty((nz, nq))
-        pg.parallel_gradient(phi, 1, der)
+        g = Guard(chk, 'C13:raises', 'constructing ParallelGradient or calling parallel_gradient', case)
+        with g:
+            pg = ParallelGradient(bs, [r, theta, z], lay, C, order=order)
+            pg.parallel_gradient(phi, 1, der)
+        if g.raised:
+            continue
         bzdz = 1.0 / dz * sum(abs(float(x)) for x in fd_weights_exact(order)[1])
-        case = {'order': order, 'deg': deg, 'uniform': uniform, 'nq': nq, 'nz': nz, 'k': k, 'iota': C.iotaVal, 'dz': float(dz)}
         if not (np.abs(der) <= 2.0 ** -34 * bzdz).all():
             chk.fail('C13:fieldline-constant', 'the gradient of a function constant along field lines is not zero', case,
                      expected=0.0, actual=float(np.abs(der).max()))
@@ -344,12 +344,16 @@ def convergence_smoke(chk):
             C = Constants()
             C.iotaVal = 0.0
             lay = Layout('v_parallel_2d', [1], [0, 2, 1], eta, [0])
-            pg = ParallelGradient(bs, eta, lay, C, order=order)
             phi = np.repeat(np.sin(2 * np.pi * z / Lz)[:, None], 8, axis=1)
-            der = np.empty_like(phi)
-            pg.parallel_gradient(phi, 0, der)
+            der = np.full_like(phi, np.inf)
+            with Guard(chk, 'C13:raises', 'constructing ParallelGradient or calling parallel_gradient', {'order': order, 'nz': nz}):
+                pg = ParallelGradient(bs, eta, lay, C, order=order)
+                pg.parallel_gradient(phi, 0, der)
             errs.append(np.abs(der - (2 * np.pi / Lz) * np.cos(2 * np.pi * z / Lz)[:, None]).max())
-        rate = float(np.log2(errs[0] / errs[1]))
+        with np.errstate(all='ignore'):
+            rate = float(np.log2(errs[0] / errs[1]))
+        if not np.isfinite(rate):
+            continue
         obs[order] = round(rate, 2)
         if rate < order - 0.7:
             chk.fail('C13:convergence-smoke', 'TEST: observed convergence order %.2f below the stated order %d' % (rate, order),
